@@ -298,8 +298,9 @@ package memmetrics
 //@   props C09 C18
 //@   requires r != nil && (forall i int :: 0 <= i && i < len(r.buckets) ==> r.buckets[i] != nil)
 //@   modifies nothing
-//@   ensures private_copy: result != nil && fresh(result) && len(result.buckets) == len(r.buckets) && result.idx == r.idx
-//@   loop 1 invariant -1 <= rangeindex && rangeindex < len(r.buckets) && export != nil && fresh(export) && export.idx == r.idx && len(exportBuckets) == len(r.buckets) && fresh(backing(exportBuckets))
+//@   ensures private_copy: result != nil && fresh(result) && len(result.buckets) == len(r.buckets) && result.idx == r.idx && fresh(backing(result.buckets))
+//@   ensures {C09,C18} no_bucket_shared_with_the_live_histogram: forall i int :: 0 <= i && i < len(result.buckets) ==> result.buckets[i] != nil && fresh(result.buckets[i])
+//@   loop 1 invariant -1 <= rangeindex && rangeindex < len(r.buckets) && export != nil && fresh(export) && export.idx == r.idx && len(exportBuckets) == len(r.buckets) && fresh(backing(exportBuckets)) && (forall i int :: 0 <= i && i <= rangeindex ==> exportBuckets[i] != nil && fresh(exportBuckets[i]))
 
 // the merged view covers every bucket of the window
 //@ func (*RollingHDRHistogram).Merged
